@@ -94,6 +94,9 @@ class Ctx:
         return 'violation'
 
     def violation(self, site, clauses, tags, replay, what=None):
+        if getattr(self, 'mute', False):                 # binding canaries: counted by the caller, no file, no output
+            self.violations.append({'site': site, 'clauses': clauses, 'tags': tags})
+            return
         n = len(self.violations)
         gk = (site, tuple(clauses))
         self._vgroups[gk] = self._vgroups.get(gk, 0) + 1
